@@ -232,6 +232,37 @@ pub fn replay_cnfvec(args: &Args) {
                 }
             }
         }
+        "sdd-dtree" => {
+            // the vtree derived from the CNF's own dtree (min-fill / linear / reversed elimination order): one builder per CNF
+            use rsdd::repr::DTree;
+            configs += 3;
+            for v in &vecs {
+                let cnf = Cnf::new(&clauses_of(v));
+                if cnf.clauses().is_empty() || cnf.clauses().iter().any(|c| c.is_empty()) || cnf.num_vars() == 0 {
+                    continue; // domain of DTree::from_cnf / from_dtree: at least one clause, every clause mentions a variable
+                }
+                let n = cnf.num_vars();
+                for (k, elim) in [cnf.min_fill_order(), VarOrder::linear_order(n), vl(&(0..n).rev().collect())].into_iter().enumerate() {
+                    t.steps += 1;
+                    let name = format!("sdd dtree-derived vtree, elimination order kind {k}");
+                    let r = guarded(|| {
+                        let dt = DTree::from_cnf(&cnf, &elim);
+                        let vt = VTree::from_dtree(&dt).expect("a vtree");
+                        let bm = CompressionSddBuilder::new(vt);
+                        let p = bm.compile_cnf(&cnf);
+                        sdd_tt(p, nv)
+                    });
+                    match r {
+                        Ok(got) => {
+                            if got != models_of(v) {
+                                note(&mut t, &name, v, json!({"models_tt": got}));
+                            }
+                        }
+                        Err(m) => note(&mut t, &name, v, json!({"panic": m})),
+                    }
+                }
+            }
+        }
         "topdown" => {
             for (i, o) in orders.iter().enumerate() {
                 for store in ["std", "sem"] {
